@@ -45,3 +45,6 @@ package prelude
 //@   ensures ghost.cacheSeen == (old(ghost.cacheSeen) || result)
 //@ assume func github.com/keep-network/keep-common/pkg/cache.TimeCache.Sweep
 //@   ensures true
+//@ assume func github.com/keep-network/keep-common/pkg/cache.NewTimeCache
+//@   modifies alloc
+//@   ensures result != nil && !old(allocated(result))
